@@ -231,7 +231,7 @@ Lemma q_soc_like cfg outbox a : quiet_prog (Soc.like cfg outbox a). Proof. qu So
 Lemma q_soc_undo cfg outbox a : quiet_prog (Soc.undo cfg outbox a). Proof. qu Soc.undo. Qed.
 Lemma q_soc_block cfg a : quiet_prog (Soc.block cfg a). Proof. qu Soc.block. Qed.
 #[export] Hint Resolve q_soc_create q_soc_update q_soc_delete q_soc_follow q_soc_add q_soc_remove q_soc_like q_soc_undo q_soc_block : quiet.
-Lemma q_post_outbox cfg outbox raw perm a : quiet_prog (post_outbox cfg outbox raw perm a). Proof. qu post_outbox. Qed.
+Lemma q_post_outbox cfg outbox raw perm a : quiet_prog (post_outbox cfg outbox raw perm a). Proof. unfold post_outbox, soc_callbacks. q. Qed.
 #[export] Hint Resolve q_post_inbox q_post_outbox : quiet.
 
 (* ---- BaseActor.deliver ---- *)
